@@ -299,3 +299,27 @@ func genNear(t *rapid.T, w int, pivots ...int) int {
 func describe(d D) string {
 	return d.Num().String()
 }
+
+// abbr shortens long digit strings for samples and messages.
+func abbr(s string) string {
+	if len(s) <= 100 {
+		return s
+	}
+	return fmt.Sprintf("%s…(%d chars)…%s", s[:40], len(s), s[len(s)-40:])
+}
+
+// inexactClass classifies how the exact value x sits relative to the format:
+// "exact", "tie", "near-tie" or "inexact"; also returns the quantum exponent.
+func inexactClass(x ref.X) (string, int) {
+	e := ref.Quantum(x)
+	_, half, exact := ref.IntDiv(x, e)
+	switch {
+	case exact:
+		return "exact", e
+	case half == 0:
+		return "tie", e
+	case isNearTie(x, e):
+		return "near-tie", e
+	}
+	return "inexact", e
+}
